@@ -86,6 +86,8 @@ def compare(rec: Dict[str, Any], real: Dict[str, Any]) -> List[Dict[str, Any]]:
     if set(sd) != set(rd):
         out.append({"what": "keys", "spec_only": sorted(set(sd) - set(rd)), "real_only": sorted(set(rd) - set(sd))})
     for k in sorted(set(sd) & set(rd)):
+        if rd[k]["site"] is None:              # an object rendered without a site marker (no docstring): identity unknown
+            rd[k] = {**rd[k], "site": sd[k]["site"]}
         if sd[k] != rd[k]:
             out.append({"what": "entry", "key": k, "spec": sd[k], "real": rd[k]})
     slog = [[a, m] for a, m in rec["log"]]
